@@ -172,6 +172,30 @@ def handleObs (line : String) (toks : List String) : M Unit := do
             oracleFail "hverify" s!"Verify reported trees {have_}, the targets lie in trees {want}"
       | none => oracleFail "hverify" "honest proof of leaves that are not live in the specification"
     | _, _, _ => parseError line
+  | impl :: "pverify" :: h :: t :: _p :: res =>
+    -- MapPollard.VerifyPartialProof on untrusted input: total (C04) and sound (C03)
+    match parseHashes h, parseU64s t with
+    | some hs, some ts =>
+      let tr ← implRows impl
+      let got := " ".intercalate res
+      count "pverify" line (got == "ok")
+      if got == "panic" || got == "hang" then oracleFail "pverify" s!"VerifyPartialProof did not return normally: {got} (impl {impl})"
+      if got == "ok" && hs.all (· != H256.zero) && hs.length == ts.length then
+        let bad := (ts.zip hs).filter (fun (t, hh) => I.nodeAtEnc t.toNat != some hh)
+        if !bad.isEmpty then
+          let treeRows := TreeRows (BitVec.ofNat 64 I.n)
+          let isKnown := match tr with
+            | some total =>
+              total ≠ treeRows.toNat &&
+              bad.all (fun (t, hh) =>
+                t.toNat ≥ 2 ^ (treeRows.toNat + 1) - 1 &&
+                I.nodeAtEnc (translatePos t (BitVec.ofNat 8 total) treeRows).toNat == some hh)
+            | none => false
+          if isKnown then
+            knownFinding "C03.mapverify.totalrows" s!"{impl} VerifyPartialProof accepted {hx bad.head!.2} at position {bad.head!.1.toNat} (TotalRows coordinates)"
+          else
+            oracleFail "sound" s!"VerifyPartialProof accepted claim {hx bad.head!.2} at position {bad.head!.1.toNat} which is false (impl {impl})"
+    | _, _ => parseError line
   | impl :: "verify" :: h :: t :: p :: res =>
     match parseHashes h, parseU64s t, parseHashes p with
     | some hs, some ts, some ps =>
